@@ -11,7 +11,7 @@ PROP = "C11"
 GEN = ["Murmur3", "Rendezvous"]
 VO = ["Properties/C11.vo", "Extract/D_C11.vo", "Extract/O_C11.vo"]
 MODULE = "Properties.C11"
-THEOREMS = ["c11_spec_any_hash", "c11_owner_unique", "c11_spec", "c11_order", "c11_history", "c11_remove", "c11_add"]
+THEOREMS = ["c11_spec_any_hash", "c11_owner_unique", "c11_spec", "c11_order", "c11_history", "c11_remove", "c11_add", "c11_spelling_host_port", "c11_spelling_default_port", "c11_spelling_unix", "c11_spelling_brackets"]
 DRIVER = "D_C11"
 ORACLE = "O_C11"
 TECHNIQUE = ("Coq proof about the Gallina translation of RendezvousHash.get_node/add_node/remove_node (regenerated every "
@@ -20,8 +20,10 @@ TECHNIQUE = ("Coq proof about the Gallina translation of RendezvousHash.get_node
 LEVEL_TEXT = ("Proved for all node lists, keys, seeds and all non-negative hash functions: get_node returns the unique node "
               "with the highest (score, name); placement depends only on the node set (permutations, add/remove histories); "
               "remove moves only the removed node's keys; add moves keys only onto the new node. 'Spread' is a vm_compute "
-              "computation over a corpus, not a theorem. Spelling equivalence of server addresses is checked on the "
-              "implementation only (partial: no theorem for normalize_server_spec).")
+              "computation over a corpus, not a theorem. c11_spelling_*: in the hand model of normalize_server_spec + "
+              "_make_client_key (compared with the real functions on ~500 well-formed and malformed spellings each run) the "
+              "string 'host:port' and the tuple (host, port) give the node name 'host:port', a bare host means port 11211, "
+              "'unix:/path' equals '/path', '[v6]:port' equals (v6, port) - for every host, path and port.")
 LEVEL_NOTE = ("Trusted: Coq kernel; translator and PM.Lib.Py (str(), max, f-string, list append/remove/in); the constructor "
               "wiring `lambda x: hash_function(x, seed)` is checked structurally by the generator; nodes are str values. "
               "No axioms.")
@@ -29,11 +31,12 @@ TRUSTED = [
     "Coq 8.16.1 kernel; no axioms (Closed under the global context)",
     "translator tools/py2coq (dyn mode, named loop bodies, self-state threading for add_node/remove_node); gen.py checks the constructor's hash wiring syntactically",
     "PM.Lib.Py: str() of str/bytes/int, max on str, f-strings, list `in`/append/remove, == on dyn",
+    "hand-written model coq/Model/ServerSpec.v tied to normalize_server_spec/_make_client_key by this check's correspondence run",
     "extraction: ExtrOcamlBasic only; coq/Extract/ocaml/driver.ml",
 ]
 ASSUMPTIONS = ["nodes are str (HashClient's '%s:%s' % server or a socket path)",
                "a key is the Python value passed: 'abc' and b'abc' are different keys (str(b'abc') is \"b'abc'\")",
-               "'spread' is a computation over a corpus; address-spelling equivalence has no theorem (search only)"]
+               "'spread' is a computation over a corpus; int() of a port string is modelled for ASCII digits, sign, underscores and surrounding whitespace (not for non-ASCII Unicode digits)"]
 
 NAMES = ["10.0.0.1:11211", "10.0.0.2:11211", "cache-a:11211", "cache-b:11212", "/tmp/mc.sock", "::1:11211",
          "h:1", "h:2"]
@@ -75,6 +78,24 @@ def gen_cases(ctx):
     return cases
 
 
+def spellings(ctx):
+    """server specifications in every accepted spelling, plus malformed ones"""
+    rng = ctx.rng
+    hosts = ["h", "10.0.0.1", "cache-a.example.com", "::1", "fe80::1%eth0", "unix", "unixx", "a]", "[", "]", "x[y]", "", " h", "h "]
+    ports = ["11211", "1", "0", "65535", "011", " 12", "12 ", "+5", "1_0", "-1", "", "x", "0x10", "1.5"]      # (non-ASCII Unicode digits, which int() also accepts, are outside the model)
+    out = [("h", 11211), ("10.0.0.1", 1), ("::1", 11311), ("h", "11211"), "/tmp/mc.sock", "unix:/tmp/mc.sock", "unix:", "unix:rel", "/", "unix:unix:/x"]
+    for h in hosts:
+        out.append(h)
+        out.append("[" + h + "]")
+        for pt in ports:
+            out.append(h + ":" + pt)
+            out.append("[" + h + "]:" + pt)
+    for _ in range(100 if ctx.quick else 1500):
+        n = rng.randrange(0, 9)
+        out.append("".join(rng.choice("h1:[]/. unix-_%") for _ in range(n)))
+    return out
+
+
 def correspondence(ctx):
     from pymemcache.client.rendezvous import RendezvousHash
     cases = gen_cases(ctx)
@@ -112,8 +133,21 @@ def correspondence(ctx):
             if (r[0], list(r[1]) if r[0] == "ok" else r[1]) != (m[0], list(m[1]) if m[0] == "ok" else m[1]):
                 dis.append({"history_step": (op, n), "impl": repr(r), "model": repr(m)})
                 break
+    # node names: the ServerSpec model vs normalize_server_spec + HashClient._make_client_key on many spellings
+    from pymemcache.client.base import normalize_server_spec
+    from pymemcache.client.hash import HashClient
+    specs = spellings(ctx)
+    mk = HashClient.__new__(HashClient)._make_client_key
+    mres = ctx.driver.call_many([(8, (sp,)) for sp in specs])
+    for sp, m in zip(specs, mres):
+        try:
+            r = ("ok", mk(normalize_server_spec(sp)))
+        except BaseException as e:  # noqa
+            r = ("ex", core.exn_name(e))
+        if r != m:
+            dis.append({"server_spec": repr(sp), "impl": repr(r), "model": repr(m)})
     distinct = len({repr(c) for c in cases if len(c[1]) >= 2})
-    return {"evaluations": len(cases) + steps, "distinct_nontrivial": distinct,
+    return {"evaluations": len(cases) + steps + len(specs), "distinct_nontrivial": distinct,
             "rule": "generated get_node (extracted) vs RendezvousHash.get_node: permutations of up to 5 of 8 node names x "
                     "str/bytes/int/empty/non-ASCII keys x seeds; random subsets; table-driven hash functions with values in "
                     "0..2 (forced ties); add/remove histories of length <= 8 compared step by step; non-trivial = >= 2 nodes",
@@ -263,13 +297,26 @@ def search(ctx):
         if ("ok", got) != oo:
             found.append({"clause": "HashClient contacts the rendezvous owner", "input": repr(k), "observed": got,
                           "expected": repr(oo), "size": 1})
-    spell = [(["h:11211"], [("h", 11211)]), (["h"], [("h", 11211)]), (["[::1]:11311"], [("::1", 11311)]),
-             (["unix:/tmp/x.sock"], ["/tmp/x.sock"]), (["h:1", "g:2"], [("g", 2), ("h", 1)])]
+    spell = [(["h:11211"], [("h", 11211)]), (["h"], [("h", 11211)]), (["[::1]:11311"], [("::1", 11311)]), (["[::1]"], [("::1", 11211)]),
+             (["unix:/tmp/x.sock"], ["/tmp/x.sock"]), (["h:1", "g:2"], [("g", 2), ("h", 1)]),
+             (["10.0.0.1", "10.0.0.2:11211", "[::1]", "cache.example.com:11212", "unix:/var/run/mc.sock"],
+              [("10.0.0.1", 11211), ("10.0.0.2", 11211), ("::1", 11211), ("cache.example.com", 11212), "/var/run/mc.sock"]),
+             (["10.0.0.1", "10.0.0.1:11211", ("10.0.0.1", 11211)], [("10.0.0.1", 11211)])]
     for a, b in spell:
-        na, nb = sorted(HashClient(a).hasher.nodes), sorted(HashClient(b).hasher.nodes)
+        ha, hb = HashClient(a), HashClient(b)
+        na, nb = sorted(ha.hasher.nodes), sorted(hb.hasher.nodes)
+        why = None
         if na != nb:
-            found.append({"clause": "equivalent spellings of a server address give the same placement",
-                          "input": {"a": repr(a), "b": repr(b)}, "observed": repr((na, nb)), "expected": "equal node names", "size": 0})
+            why = "node names differ: %r vs %r" % (na, nb)
+        else:
+            for k in rk[:60]:
+                sa, sb = ha._get_client(k)[0].server, hb._get_client(k)[0].server
+                if sa != sb:
+                    why = "key %r is placed on %r under one spelling and on %r under the other" % (k, sa, sb)
+                    break
+        if why:
+            found.append({"clause": "equivalent spellings of a server address give the same placement: " + why,
+                          "input": {"a": repr(a), "b": repr(b)}, "observed": repr((na, nb)), "expected": "equal node names and placement", "size": 0})
     # 4. process / hash-randomisation independence
     digs = {hashseed_digest(s) for s in (0, 1, 2, 4242)}
     if len(digs) != 1 or "" in digs:
